@@ -46,7 +46,7 @@ package ociref
 //@ func checkTag
 //@   pure
 //@   ensures[length-limit] result == nil ==> 1 <= len(s) && len(s) <= 128
-//@   ensures[first-is-word] result == nil ==> isWord(s[0])
+//@   ensures[first-is-word] result == nil ==> okTagByte(s[0]) && s[0] != '.' && s[0] != '-'
 //@   ensures[all-bytes-ok] result == nil ==> forall j int :: 1 <= j && j < len(s) ==> okTagByte(s[j])
 //@   loop 0 invariant 1 <= i && i <= len(s)
 //@   loop 0 invariant forall j int :: 1 <= j && j < i ==> okTagByte(s[j])
